@@ -175,14 +175,24 @@ def prop_resume(case, rec):
         rec.skip('fewer_than_2_preterminals')
         return
     k = 1 + k % len(u.pops)
-    a = guard(case, session.run_main, root, ['-r', 'T', '-s', 'f'] + fa, [(('before_pop', k), 'q')])
+    sname, neighbour = case.get('sessions') or ['f', None]
+    for nm in (sname, neighbour):
+        for ext in ('.sav', '.omn'):
+            if nm and os.path.exists(os.path.join(root, nm + ext)):
+                os.remove(os.path.join(root, nm + ext))
+    a = guard(case, session.run_main, root, ['-r', 'T', '-s', sname] + fa, [(('before_pop', k), 'q')])
+    if neighbour:
+        # a second session next to it, same ruleset, OTHER flags, quit elsewhere: it has its own save file
+        nf = case.get('neighbour_flags') or {}
+        na = (['--skip_brute'] if nf.get('skip_brute') else []) + (['--all_lower'] if nf.get('skip_case') else [])
+        guard(case, session.run_main, root, ['-r', 'T', '-s', neighbour] + na, [(('before_pop', 1 + case.get('neighbour_cut', 0)), 'q')])
     # flags given on the command line next to --load must not change anything: the session continues under the saved flags
     lf = case.get('load_flags') or {}
     la = (['--skip_brute'] if lf.get('skip_brute') else []) + (['--all_lower'] if lf.get('skip_case') else [])
-    b = guard(case, session.run_main, root, ['-r', 'T', '-s', 'f', '--load'] + la)
+    b = guard(case, session.run_main, root, ['-r', 'T', '-s', sname, '--load'] + la)
     both = flags['skip_brute'] and flags['skip_case']
     rec.case({'flags': flags, 'cut': k, 'U': len(u.pops)}, both or 'M' not in [s for s, _ in m['base']],
-             S.describe(m) + [f"resume_flags:{int(flags['skip_brute'])}{int(flags['skip_case'])}"] + (['flags_next_to_load'] if la else []), key=[m, flags, k, lf])
+             S.describe(m) + [f"resume_flags:{int(flags['skip_brute'])}{int(flags['skip_case'])}"] + (['flags_next_to_load'] if la else []) + (['neighbour_session_other_flags'] if neighbour else []), key=[m, flags, k, lf, case.get('sessions'), case.get('neighbour_flags')])
     uset = Counter(u.pops)
     for p in b.pops:
         if p not in uset:
@@ -207,7 +217,13 @@ def resume_cases(draw):
               {'skip_brute': False, 'skip_case': False}]
     flags = draw(st.sampled_from(combos))
     load_flags = draw(st.sampled_from([None, None] + combos[:3]))
-    return {'model': m, 'flags': flags, 'load_flags': load_flags, 'cut': draw(st.integers(0, 30))}
+    case = {'model': m, 'flags': flags, 'load_flags': load_flags, 'cut': draw(st.integers(0, 30))}
+    if draw(st.integers(0, 2)) == 0:
+        from ..histories import SESSION_PAIRS
+        case['sessions'] = draw(st.sampled_from(SESSION_PAIRS))
+        case['neighbour_flags'] = draw(st.sampled_from(combos))
+        case['neighbour_cut'] = draw(st.integers(0, 20))
+    return case
 
 
 def run_resume(rec, seed, shard, nshards, tier):
